@@ -81,8 +81,8 @@ def fwd_worker(task):
         if raws:
             fam_ = h.family
             if fam_ == "scalar" and h.impl.name in ("update_attr", "transform_attr") and \
-                    not any("with_attr" in c for c in calls):
-                bad.append("reaches the raw write without going through with_attr")
+                    not any("with_attr" in c or "prepare_attr_value" in c for c in calls):
+                bad.append("reaches the raw write without going through with_attr / prepare_attr_value (the value is stored unprepared)")
             if h.impl.name in ("reset_attr", "reset") and not any("__delattr__" in c for c in calls):
                 bad.append("reaches the raw write/delete without going through the __delattr__ closure")
     r["bad"] = sorted(set(bad))
